@@ -237,6 +237,24 @@ var worlds = []*wdef{
 		share: 0.30,
 	},
 	{
+		// nothing pre-loaded, every single operation and every ordered pair of operations in the FIRST block:
+		// the pool's balance record, the reward records and the active records do not exist yet when the
+		// second operation of the block runs (they were written in this block, never committed). (Added after
+		// a seeded change - a donation that overwrites the pool balance with a sum computed from a read that
+		// only sees committed keys - escaped both the pairs of world "loaded" and the single-operation
+		// blocks of world "fresh")
+		name: "fresh-pairs", class: "fresh",
+		pre: preload{active: three(nil, nil, nil), rb: three(nil, nil, nil)},
+		numEvents: func(tier string, depth int) int {
+			if depth == 0 {
+				return len(alphabet)
+			}
+			return nDeep
+		},
+		depth: map[string]int{"quick": 2, "thorough": 3},
+		share: 0.25,
+	},
+	{
 		// nothing pre-loaded: the deep search
 		name: "fresh", class: "fresh",
 		pre:       preload{active: three(nil, nil, nil), rb: three(nil, nil, nil)},
